@@ -27,7 +27,7 @@ SHARDS = {"quick": 8, "thorough": 16}
 DEADLINE = {"quick": 50, "thorough": 420}
 REQUIRED = {"eval:int:expression": 500, "eval:float:expression": 500, "eval:missing-variable": 50, "eval:division-by-zero": 20,
             "eval:equation:true": 20, "eval:equation:false": 20, "evalop:int:Power": 100, "evalop:int:Factorial": 20, "evalop:float:Divide": 100,
-            "evalop:int:Sgn": 10, "evalop:float:Power": 50, "eval:int:bigresult": 20, "eval:same-dict-updated-in-place": 500}
+            "evalop:int:Sgn": 10, "evalop:float:Power": 50, "eval:int:bigresult": 20, "eval:same-dict-updated-in-place": 500, "eval:context-dict-subclass": 200}
 
 INT_VALUES = [0, 1, -1, 2, 3, -2, 5, 7, 10, -7, 12, 2 ** 31, 2 ** 32, 2 ** 63 - 1, 2 ** 63, -(2 ** 63) - 1, 10 ** 30, 2 ** 64 + 1, 99991, -65537, 46341, 3037000500]
 FLOAT_VALUES = [0.5, 2.5, -0.25, 1.5, 0.1, 3.14, 100.125, 1e-3, 12.75, -7.5, 1e6, 2.0, 0.0, 1e10]
@@ -210,6 +210,21 @@ def run(rec, cfg):
                 shared[gone] = 3
                 evaluate(rec, t, shared)
             if names and rng.random() < 0.15:
+                # contexts that are dict subclasses answering missing keys by themselves (a Counter
+                # of values, a defaultdict): a variable without a value is still an error
+                import collections
+
+                base = context_for(rng, names, "small-int")
+                gone = rng.choice(names)
+                base.pop(gone)
+                for mk in (lambda d: collections.Counter(d), lambda d: collections.defaultdict(int, d), lambda d: collections.defaultdict(float, d),
+                           lambda d: collections.OrderedDict(d)):
+                    try:
+                        evaluate(rec, t, mk({k: v for k, v in base.items() if isinstance(v, int)}))
+                        rec.arm("eval:context-dict-subclass")
+                    except Exception:
+                        pass
+            if names and rng.random() < 0.15:
                 ctx = context_for(rng, names, "small-int")
                 drop = rng.choice(names)
                 if rng.random() < 0.5:
@@ -236,6 +251,11 @@ def replay(rec, cfg, w):
                 ctx[k] = eval(v, {"np": np, "nan": float("nan"), "inf": float("inf")})
             except Exception:
                 ctx[k] = None
+    ct = w.get("context_type", "")
+    if ct:
+        import collections
+
+        ctx = {"Counter": collections.Counter, "OrderedDict": collections.OrderedDict}.get(ct.split(":")[0], lambda d: collections.defaultdict(float if ct.endswith("float") else int, d))(ctx)
     try:
         root.evaluate(ctx)
     except Exception:
